@@ -53,6 +53,7 @@ def plan(tier, seed):
     for e in corpus.entries():
         if e["fmt"] == "json_qcschema":
             cases.append({"kind": "json_corpus", "file": e["file"]})
+            cases.append({"kind": "json_corpus", "file": e["file"], "edited": True})
     # the repository's own test-suite as a workload under monitor M9 (vf/mon/pytest_plugin.py)
     cases.append({"kind": "suite", "tier": tier, "timeout": 3300})
     return cases
@@ -333,6 +334,16 @@ def case_json_corpus(case):
             return None
     viols = []
     counters = {"dump_calls": 0, "snapshots_compared": 0, "byte_comparisons": 0}
+    # a user who edits the loaded object before writing it: the attributes then disagree with what the nested `extra`
+    # dictionaries recorded at load time (run type, method, basis, title, charge)
+    if case.get("edited"):
+        edits = {"run_type": ["freq", "opt", "energy"], "lot": ["pbe0", "mp2"], "obasis_name": ["def2-svp", "cc-pvdz"], "title": ["edited title"]}
+        for k, (name, vals) in enumerate(sorted(edits.items())):
+            try:
+                cur = getattr(data, name)
+                setattr(data, name, next(v for v in vals if v != cur))
+            except Exception:
+                pass
     root = tempfile.mkdtemp(prefix="vf_c09j_")
     try:
         before = observe(data)
@@ -359,7 +370,7 @@ def case_json_corpus(case):
                 break
     finally:
         shutil.rmtree(root, ignore_errors=True)
-    return viols, [f"json_corpus:{case['file']}"], counters, {"file": case["file"], "extra_keys": sorted(data.extra)[:8]}
+    return viols, [f"json_corpus:{case['file']}{':edited' if case.get('edited') else ''}"], counters, {"file": case["file"], "extra_keys": sorted(data.extra)[:8]}
 
 
 def run_case(case):
